@@ -402,6 +402,9 @@ func (x *Exec) doBinOp(i *ssa.BinOp) {
 }
 
 func (x *Exec) needDecl(name, decl string) {
+	if x.smt.declaredSort(name) != "" {
+		return // already declared by the base prelude or a loaded spec prelude
+	}
 	key := "decl:" + name
 	if x.smt.declared[key] {
 		return
@@ -515,7 +518,7 @@ func (x *Exec) doSlice(i *ssa.Slice) {
 			}
 		}
 		if whole {
-			x.bind(i, tv(x.readLoc(base.Loc)))
+			x.vals[i] = Val{Origin: base.Loc, KnownLen: -1}
 			return
 		}
 		// a proper sub-slice of a byte array: a value (writes through it are not modelled)
